@@ -14,7 +14,7 @@
    path (every nested call has popped one element).  Executable definitions only. *)
 From Coq Require Import List NArith ZArith Bool.
 Import ListNotations.
-From JB Require Import Constants Bytes Utf8 Num Value Codec TreeOps JsonText Dispatch Walk Iter Builder.
+From JB Require Import Constants Bytes Utf8 Num Value Codec TreeOps JsonText Dispatch Walk Iter Builder BufSt.
 Open Scope N_scope.
 
 (* ObjectBuilder: BTreeMap<&str, Entry> *)
@@ -105,50 +105,61 @@ Definition new_value_entry (new_value : list N) : res entry :=
         end
   end.
 
+(* the caller's buffer is state (BufSt.v): every step up to the last is `spure` (it does not mention `buf`; the
+   duplicate-key error, the failed reads, the panicking slices all come before anything is written), the last one is
+   builder.build_into(buf) *)
+Definition object_insert_b_st (value new_key new_value : list N) (upd : bool) : stm unit :=
+  sdo header <- spure (of_option EOther (read_u32 value 0));
+  if negb (hdr_type header =? OBJECT_CONTAINER_TAG) then spure (Err EInvalidObject) else
+  sdo pos <- spure (iterate_object_keys value header (ins_key_step new_key upd) (fun st => Ok (snd st, false)) (O, O));
+  let '(idx, dup) := pos in
+  sdo r1 <- spure (push_n value idx (ItNew (hdr_len header)) []);
+  let '(b1, it1) := r1 in
+  sdo e <- spure (new_value_entry new_value);
+  let b2 := obj_push b1 new_key e in
+  sdo it2 <- spure (if dup then do r <- ent_next value it1; Ok (snd r) else Ok it1);
+  sdo b3 <- spure (ent_rest value it2 (fun b key j item => Ok (inl (obj_push b key (ERaw j item)))) (fun b => Ok b) b2);
+  swrite (fun buf => build_obj_into buf b3).
 Definition object_insert_b (value new_key new_value : list N) (upd : bool) (buf : list N) : res (list N) :=
-  match read_u32 value 0 with
-  | None => Err EOther
-  | Some header =>
-      if negb (hdr_type header =? OBJECT_CONTAINER_TAG) then Err EInvalidObject else
-      do pos <- iterate_object_keys value header (ins_key_step new_key upd) (fun st => Ok (snd st, false)) (O, O);
-      let '(idx, dup) := pos in
-      do r1 <- push_n value idx (ItNew (hdr_len header)) [];
-      let '(b1, it1) := r1 in
-      do e <- new_value_entry new_value;
-      let b2 := obj_push b1 new_key e in
-      do it2 <- (if dup then do r <- ent_next value it1; Ok (snd r) else Ok it1);
-      do b3 <- ent_rest value it2 (fun b key j item => Ok (inl (obj_push b key (ERaw j item)))) (fun b => Ok b) b2;
-      Ok (build_obj_into buf b3)
-  end.
+  view (object_insert_b_st value new_key new_value upd buf).
 
-(* the public function: each text argument is parsed and re-encoded, then the binary walker runs *)
+(* the public function: each text argument is parsed and re-encoded (into a local Vec), then the binary walker runs *)
 Definition as_jsonb (bs : list N) : res (list N) :=
   if is_jsonb bs then Ok bs else do v <- parse_value bs; Ok (to_vec v).
+Definition object_insert_st (bs key nv : list N) (upd : bool) : stm unit :=
+  sdo vb <- spure (as_jsonb bs);
+  sdo nb <- spure (as_jsonb nv);
+  object_insert_b_st vb key nb upd.
 Definition object_insert_w (bs key nv : list N) (upd : bool) (buf : list N) : res (list N) :=
-  do vb <- as_jsonb bs;
-  do nb <- as_jsonb nv;
-  object_insert_b vb key nb upd buf.
+  view (object_insert_st bs key nv upd buf).
 
 (* ================================================================ object_delete_jsonb / object_pick_jsonb *)
 (* keys: &BTreeSet<&str>; only `contains` is used *)
+Definition object_filter_b_st (keep : list N -> bool) (value : list N) : stm unit :=
+  sdo header <- spure (of_option EOther (read_u32 value 0));
+  if negb (hdr_type header =? OBJECT_CONTAINER_TAG) then spure (Err EInvalidObject) else
+  sdo b <- spure (iterate_object_entries value header
+                    (fun b key j item => if keep key then Ok (inl (obj_push b key (ERaw j item))) else Ok (inl b))
+                    (fun b => Ok b) []);
+  swrite (fun buf => build_obj_into buf b).
 Definition object_filter_b (keep : list N -> bool) (value buf : list N) : res (list N) :=
-  match read_u32 value 0 with
-  | None => Err EOther
-  | Some header =>
-      if negb (hdr_type header =? OBJECT_CONTAINER_TAG) then Err EInvalidObject else
-      do b <- iterate_object_entries value header
-                (fun b key j item => if keep key then Ok (inl (obj_push b key (ERaw j item))) else Ok (inl b))
-                (fun b => Ok b) [];
-      Ok (build_obj_into buf b)
-  end.
+  view (object_filter_b_st keep value buf).
+Definition object_delete_b_st (value : list N) (ks : list (list N)) : stm unit :=
+  object_filter_b_st (fun k => negb (mem_key k ks)) value.
+Definition object_pick_b_st (value : list N) (ks : list (list N)) : stm unit :=
+  object_filter_b_st (fun k => mem_key k ks) value.
 Definition object_delete_b (value : list N) (ks : list (list N)) (buf : list N) : res (list N) :=
-  object_filter_b (fun k => negb (mem_key k ks)) value buf.
+  view (object_delete_b_st value ks buf).
 Definition object_pick_b (value : list N) (ks : list (list N)) (buf : list N) : res (list N) :=
-  object_filter_b (fun k => mem_key k ks) value buf.
+  view (object_pick_b_st value ks buf).
+Definition object_delete_st (bs : list N) (ks : list (list N)) : stm unit :=
+  sdo vb <- spure (as_jsonb bs); object_delete_b_st vb ks.
+Definition object_pick_st (bs : list N) (ks : list (list N)) : stm unit :=
+  sdo vb <- spure (as_jsonb bs); object_pick_b_st vb ks.
 Definition object_delete_w (bs : list N) (ks : list (list N)) (buf : list N) : res (list N) :=
-  do vb <- as_jsonb bs; object_delete_b vb ks buf.
+  view (object_delete_st bs ks buf).
 Definition object_pick_w (bs : list N) (ks : list (list N)) (buf : list N) : res (list N) :=
-  do vb <- as_jsonb bs; object_pick_b vb ks buf.
+  view (object_pick_st bs ks buf).
 
 (* ================================================================ strip_nulls_jsonb *)
 Section Strip.
@@ -182,19 +193,20 @@ Fixpoint strip_item (fuel : nat) (item : list N) : res entry :=
       else Panic
   end end.
 
-Definition strip_nulls_b (value buf : list N) : res (list N) :=
-  match read_u32 value 0 with
-  | None => Err EOther
-  | Some header =>
-      if hdr_type header =? OBJECT_CONTAINER_TAG then
-        do b <- strip_obj (strip_item (length value)) header value; Ok (build_obj_into buf b)
-      else if hdr_type header =? ARRAY_CONTAINER_TAG then
-        do es <- strip_arr (strip_item (length value)) header value; Ok (build_arr_into buf es)
-      else Ok (buf ++ value)
-  end.
-(* text: parse, strip on the tree, write_to_vec *)
-Definition strip_nulls_w (bs buf : list N) : res (list N) :=
-  if is_jsonb bs then strip_nulls_b bs buf else strip_nulls_m bs buf.
+(* strip_nulls_array / strip_nulls_object return builders (no `buf` in their signature); the top level writes once *)
+Definition strip_nulls_b_st (value : list N) : stm unit :=
+  sdo header <- spure (of_option EOther (read_u32 value 0));
+  if hdr_type header =? OBJECT_CONTAINER_TAG then
+    sdo b <- spure (strip_obj (strip_item (length value)) header value); swrite (fun buf => build_obj_into buf b)
+  else if hdr_type header =? ARRAY_CONTAINER_TAG then
+    sdo es <- spure (strip_arr (strip_item (length value)) header value); swrite (fun buf => build_arr_into buf es)
+  else swrite (fun buf => buf ++ value).                                  (* buf.extend_from_slice(value) *)
+Definition strip_nulls_b (value buf : list N) : res (list N) := view (strip_nulls_b_st value buf).
+(* text: parse_value(value)?, strip on the tree, json.write_to_vec(buf) *)
+Definition strip_nulls_st (bs : list N) : stm unit :=
+  if is_jsonb bs then strip_nulls_b_st bs
+  else sdo v <- spure (parse_value bs); write_value (strip_nulls_t v).
+Definition strip_nulls_w (bs buf : list N) : res (list N) := view (strip_nulls_st bs buf).
 
 (* ================================================================ delete_by_keypath_jsonb *)
 Definition kp_nil (ks : list keypath) : bool := match ks with [] => true | _ => false end.
@@ -266,24 +278,31 @@ Fixpoint del_item (fuel : nat) (item : list N) (ks : list keypath) : res (option
       else Panic
   end end.
 
+(* delete_jsonb_array_by_keypath / delete_jsonb_object_by_keypath return Option<builder> (no `buf`); the top level
+   writes once: build_into(buf) or buf.extend_from_slice(value) *)
+Definition delete_by_keypath_b_st (value : list N) (ks : list keypath) : stm unit :=
+  sdo header <- spure (of_option EOther (read_u32 value 0));
+  if hdr_type header =? ARRAY_CONTAINER_TAG then
+    sdo o <- spure (del_arr (del_item (length ks)) value header ks);
+    match o with
+    | Some (es, _) => swrite (fun buf => build_arr_into buf es)
+    | None => swrite (fun buf => buf ++ value)
+    end
+  else if hdr_type header =? OBJECT_CONTAINER_TAG then
+    sdo o <- spure (del_obj (del_item (length ks)) value header ks);
+    match o with
+    | Some (b, _) => swrite (fun buf => build_obj_into buf b)
+    | None => swrite (fun buf => buf ++ value)
+    end
+  else spure (Err EInvalidJsonType).
 Definition delete_by_keypath_b (value : list N) (ks : list keypath) (buf : list N) : res (list N) :=
-  match read_u32 value 0 with
-  | None => Err EOther
-  | Some header =>
-      if hdr_type header =? ARRAY_CONTAINER_TAG then
-        do o <- del_arr (del_item (length ks)) value header ks;
-        match o with
-        | Some (es, _) => Ok (build_arr_into buf es)
-        | None => Ok (buf ++ value)
-        end
-      else if hdr_type header =? OBJECT_CONTAINER_TAG then
-        do o <- del_obj (del_item (length ks)) value header ks;
-        match o with
-        | Some (b, _) => Ok (build_obj_into buf b)
-        | None => Ok (buf ++ value)
-        end
-      else Err EInvalidJsonType
-  end.
-(* text: parse, delete on the tree, write_to_vec *)
+  view (delete_by_keypath_b_st value ks buf).
+(* text: parse_value(value)?, delete on the tree (`return Err(InvalidJsonType)` for a scalar), value.write_to_vec(buf) *)
+Definition delete_by_keypath_st (bs : list N) (ks : list keypath) : stm unit :=
+  if is_jsonb bs then delete_by_keypath_b_st bs ks
+  else
+    sdo v <- spure (parse_value bs);
+    sdo y <- spure (delete_by_keypath_t v ks);
+    write_value y.
 Definition delete_by_keypath_w (bs : list N) (ks : list keypath) (buf : list N) : res (list N) :=
-  if is_jsonb bs then delete_by_keypath_b bs ks buf else delete_by_keypath_m bs ks buf.
+  view (delete_by_keypath_st bs ks buf).
